@@ -577,18 +577,24 @@ inductive IExn where
   | alreadyClosed    -- `AlreadyClosedError` (outputs `error_closed_close` / `error_closed_write`)
   | normalOnHalf     -- `NormalCloseUsedOnHalfCloseable`
   | halfOnFull       -- `HalfCloseUsedOnNonHalfCloseable`
+  | value            -- `ValueError`: already listening for this subprotocol
   deriving DecidableEq, Repr
 
 def IExn.name : IExn → String
   | .assertion => "AssertionError" | .key => "KeyError" | .noTransition => "NoTransition"
   | .alreadyClosed => "AlreadyClosedError" | .normalOnHalf => "NormalCloseUsedOnHalfCloseable"
-  | .halfOnFull => "HalfCloseUsedOnNonHalfCloseable"
+  | .halfOnFull => "HalfCloseUsedOnNonHalfCloseable" | .value => "ValueError"
 
 /-- calls received by the TCP transport of connection number `g`, and exceptions -/
 inductive IEv where
   | tPause (g : Nat)
   | tResume (g : Nat)
   | exc (e : IExn)
+  -- what the applications do and are told (not calls on the transport; used by the statement of the property):
+  | req (sc : Nat)       -- the application of `sc` called `transport.pauseProducing()`
+  | unreq (sc : Nat)     -- … `resumeProducing()` / `stopProducing()`
+  | opened (sc : Nat)    -- `sc` entered `_open_subchannels`
+  | closed (sc : Nat)    -- `Inbound.subchannel_closed(sc)`: the subchannel is gone, its application has been told
   deriving DecidableEq, Repr
 
 inductive IOp where
@@ -603,6 +609,10 @@ inductive IOp where
   | rclose (sc : Nat)      -- the peer's CLOSE: `Inbound.handle_close(scid)` → `sc.remote_close()`
   | lose (sc : Nat)        -- the application calls `sc.loseConnection()`
   | loseW (sc : Nat)       -- the application calls `sc.loseWriteConnection()`
+  | ropen (sc : Nat)       -- the peer's OPEN for subprotocol "proto": `Inbound.handle_open(scid, "proto")`
+  | rdata (sc : Nat)       -- the peer's DATA: `Inbound.handle_data(scid, data)` → `sc.remote_data(data)`
+  | listen (mode : Nat)    -- the application listens for "proto": `Manager._register_subprotocol_factory`; the protocols
+                           -- its factory builds: 0 = never pause, 1 = pause in `connectionMade`, 2 = pause at the first `dataReceived`
   deriving DecidableEq, Repr
 
 structure Inb where
@@ -612,6 +622,10 @@ structure Inb where
   gen : Nat := 0                 -- connections created so far
   log : List IEv := []           -- newest first
   subs : List (Nat × Gen.SubChannel.State × Bool) := []   -- SubChannel objects: Automat state, "protocol is IHalfCloseableProtocol"
+  listen : Option Nat := none            -- `SubchannelDemultiplex._factories["proto"]` (the mode of its protocols)
+  parked : List Nat := []                -- `SubchannelDemultiplex._pending_opens["proto"]`
+  pend : List (Nat × Nat × Bool) := []   -- per SubChannel: `len(_pending_remote_data)`, `_pending_remote_close`
+  beh : List (Nat × Nat) := []           -- per SubChannel: what its (factory-built) protocol still intends to do
   deriving DecidableEq, Repr
 
 /-- `self._connection.pauseProducing()` on connection `g` -/
@@ -633,8 +647,40 @@ def Inb.raise (s : Inb) (e : IExn) : Inb := { s with log := .exc e :: s.log }
     `assert self._open_subchannels[scid] is sc` (KeyError when not open); `del self._open_subchannels[scid]`;
     `self.subchannel_stopProducing(sc)`: a closed subchannel drops its pause, the connection is resumed if it was the last -/
 def Inb.closeSub (s : Inb) (sc : Nat) : Inb :=
-  if sc ∈ s.openSc then Inb.discard { s with openSc := sDel sc s.openSc } sc
+  if sc ∈ s.openSc then Inb.discard { s with openSc := sDel sc s.openSc, log := .closed sc :: s.log } sc
   else s.raise .key
+
+/-- the application of `sc` calls `transport.pauseProducing()`: `SubChannel.pauseProducing` →
+    `Manager.subchannel_pauseProducing` → `Inbound.subchannel_pauseProducing(sc)` -/
+def Inb.appPause (s : Inb) (sc : Nat) : Inb :=
+  match s.conn with
+  | some g =>
+    if s.pausedSc.isEmpty then Inb.connPause { s with pausedSc := sAdd sc s.pausedSc, log := .req sc :: s.log } g
+    else { s with pausedSc := sAdd sc s.pausedSc, log := .req sc :: s.log }
+  | none => { s with pausedSc := sAdd sc s.pausedSc, log := .req sc :: s.log }
+
+/-- … `resumeProducing()` / `stopProducing()` -/
+def Inb.appResume (s : Inb) (sc : Nat) : Inb := Inb.discard { s with log := .unreq sc :: s.log } sc
+
+def Inb.pendOf (s : Inb) (sc : Nat) : Nat × Bool :=
+  match s.pend.lookup sc with
+  | some x => x
+  | none => (0, false)
+
+def Inb.setPend (s : Inb) (sc : Nat) (x : Nat × Bool) : Inb :=
+  { s with pend := (sc, x) :: s.pend.filter (fun e => e.1 != sc) }
+
+def Inb.behOf (s : Inb) (sc : Nat) : Nat :=
+  match s.beh.lookup sc with
+  | some x => x
+  | none => 0
+
+def Inb.setBeh (s : Inb) (sc : Nat) (b : Nat) : Inb :=
+  { s with beh := (sc, b) :: s.beh.filter (fun e => e.1 != sc) }
+
+/-- `protocol.dataReceived(data)`: a mode-2 protocol asks for a pause the first time -/
+def Inb.appData (s : Inb) (sc : Nat) : Inb :=
+  if s.behOf sc == 2 then Inb.appPause (s.setBeh sc 0) sc else s
 
 /-- a SubChannel object is created `unconnected`, without a protocol -/
 def Inb.scState (s : Inb) (sc : Nat) : Gen.SubChannel.State × Bool :=
@@ -653,6 +699,11 @@ def runOuts (s : Inb) (sc : Nat) : List Gen.SubChannel.Output → Inb
   | .close_subchannel :: r => if sc ∈ s.openSc then runOuts (s.closeSub sc) sc r else s.raise .key
   | .error_closed_close :: _ => s.raise .alreadyClosed
   | .error_closed_write :: _ => s.raise .alreadyClosed
+  | .signal_dataReceived :: r => runOuts (s.appData sc) sc r
+  -- before there is a protocol: `self._pending_remote_data.append(data)` / `self._pending_remote_close = True`
+  -- (nothing else: in particular the subchannel itself never pauses or resumes the connection)
+  | .queue_remote_data :: r => runOuts (s.setPend sc ((s.pendOf sc).1 + 1, (s.pendOf sc).2)) sc r
+  | .queue_remote_close :: r => runOuts (s.setPend sc ((s.pendOf sc).1, true)) sc r
   | _ :: r => runOuts s sc r
 
 /-- one input of the SubChannel machine of `sc`, through the generated table (new state first, then outputs) -/
@@ -665,26 +716,45 @@ def scInput (s : Inb) (sc : Nat) (inp : Gen.SubChannel.Input) : Inb :=
 def openSub (s : Inb) (sc : Nat) (half : Bool) : Inb :=
   if sc ∈ s.openSc then s.raise .assertion                        -- `assert scid not in self._open_subchannels`
   else if (s.scState sc).1 != Gen.SubChannel.init then
-    Inb.raise { s with openSc := sAdd sc s.openSc } .assertion   -- `assert not self._protocol`
+    Inb.raise { s with openSc := sAdd sc s.openSc, log := .opened sc :: s.log } .assertion   -- `assert not self._protocol`
   else
-    scInput (Inb.setSc { s with openSc := sAdd sc s.openSc } sc (Gen.SubChannel.init, half)) sc
+    scInput (Inb.setSc { s with openSc := sAdd sc s.openSc, log := .opened sc :: s.log } sc (Gen.SubChannel.init, half)) sc
       (if half then .connect_protocol_half else .connect_protocol_full)
+
+/-- the `for data in self._pending_remote_data: self.remote_data(data)` loop of `_deliver_queued_data` -/
+def deliverData (s : Inb) (sc : Nat) : Nat → Inb
+  | 0 => s
+  | n + 1 => deliverData (scInput s sc .remote_data) sc n
+
+/-- `p.makeConnection(t)`: a mode-1 protocol pauses its transport in `connectionMade` -/
+def connectMade (s : Inb) (sc mode : Nat) : Inb := if mode == 1 then s.appPause sc else s
+
+/-- the tail of `_deliver_queued_data`: `del self._pending_remote_data`; the queued CLOSE if any -/
+def connectFinish (s : Inb) (sc : Nat) : Inb :=
+  if (s.pendOf sc).2 then scInput (s.setPend sc (0, false)) sc .remote_close else s.setPend sc (0, false)
+
+def connectDeliver (s : Inb) (sc : Nat) : Inb := connectFinish (deliverData s sc (s.pendOf sc).1) sc
+
+/-- `SubchannelDemultiplex._connect(factory, t, peer_addr)`: `p = factory.buildProtocol()`; `t._set_protocol(p)`;
+    `p.makeConnection(t)` (a mode-1 protocol pauses its transport in `connectionMade`); `t._deliver_queued_data()`:
+    the queued DATA, `del`, then the queued CLOSE if any — and nothing else -/
+def connectApp (s : Inb) (sc : Nat) (mode : Nat) : Inb :=
+  connectDeliver (connectMade (scInput (s.setBeh sc mode) sc .connect_protocol_full) sc mode) sc
+
+def connectAll (s : Inb) (mode : Nat) : List Nat → Inb
+  | [] => s
+  | sc :: r => connectAll (connectApp s sc mode) mode r
 
 def istep (s : Inb) : IOp → Inb
   | .use =>
     if !s.pausedSc.isEmpty then Inb.connPause { s with conn := some (s.gen + 1), gen := s.gen + 1 } (s.gen + 1)
     else { s with conn := some (s.gen + 1), gen := s.gen + 1 }
   | .stop => { s with conn := none }
-  | .pause sc =>
-    match s.conn with
-    | some g =>
-      if s.pausedSc.isEmpty then Inb.connPause { s with pausedSc := sAdd sc s.pausedSc } g
-      else { s with pausedSc := sAdd sc s.pausedSc }
-    | none => { s with pausedSc := sAdd sc s.pausedSc }
+  | .pause sc => s.appPause sc
   -- `SubChannel.resumeProducing/stopProducing` forward unconditionally, in every state of the subchannel
   -- (`Gen.Flags.subchannel_resume_is_plain_forward`, pinned by `skeleton_agrees`)
-  | .resume sc => s.discard sc
-  | .stopProducing sc => s.discard sc
+  | .resume sc => s.appResume sc
+  | .stopProducing sc => s.appResume sc
   | .opn sc => openSub s sc false
   | .opnHalf sc => openSub s sc true
   | .close sc => s.closeSub sc
@@ -695,12 +765,29 @@ def istep (s : Inb) : IOp → Inb
     if (s.scState sc).2 then s.raise .normalOnHalf else scInput s sc .local_close
   | .loseW sc =>
     if (s.scState sc).2 then scInput s sc .local_close else s.raise .halfOnFull
+  | .ropen sc =>
+    -- `handle_open`: duplicate → log.err; else a NEW SubChannel object, `_open_subchannels[scid] = sc`, `_got_open`
+    if sc ∈ s.openSc then s
+    else
+      let s1 := Inb.setBeh (Inb.setPend (Inb.setSc { s with openSc := sAdd sc s.openSc, log := .opened sc :: s.log }
+                  sc (Gen.SubChannel.init, false)) sc (0, false)) sc 0
+      match s1.listen with
+      | some mode => connectApp s1 sc mode
+      | none => { s1 with parked := s1.parked ++ [sc] }
+  | .rdata sc =>
+    -- `handle_data`: missing subchannel → log.err and return
+    if sc ∈ s.openSc then scInput s sc .remote_data else s
+  | .listen mode =>
+    -- `SubchannelDemultiplex.register`
+    if s.listen.isSome then s.raise .value
+    else connectAll { s with listen := some mode, parked := [] } mode s.parked
 
 /-! ## driver (line protocol)
 
 ```
 o <op> [/ <op> <op> … [/ …]]      one top-level Outbound call; each `/`-segment is the script of one turn, in turn order
 i use | i stop | i p <sc> | i r <sc> | i s <sc> | i o <sc> | i oh <sc> | i c <sc> | i rc <sc> | i l <sc> | i lw <sc>
+  | i ro <sc> | i rd <sc> <KiB> | i li <mode>
 op ::= X | w0 | w1 | P | R | S | r:<sc>:<p>:<0|1> | u:<sc> | c:<sc> | U | D | pl:<p>
 ```
 answer to `o`: `<calls since the line started, oldest first> | <state>`;
@@ -742,15 +829,16 @@ def orDash (s : String) : String := if s.isEmpty then "-" else s
 def showOut (c : Cfg) : String :=
   s!"paused={b01 c.o.paused} all={showList c.o.allp} P={showList (sorted c.o.pausedSet)} U={showList (sorted c.o.unpausedSet)} pulls={showList (sorted c.o.pulls)} conn={b01 c.o.conn} unsent={c.o.unsent.length} left={c.scripts.length}"
 
-def showIEv : IEv → String
-  | .tPause g => s!"tp{g}"
-  | .tResume g => s!"tr{g}"
-  | .exc e => "!" ++ e.name
+def showIEv : IEv → Option String
+  | .tPause g => some s!"tp{g}"
+  | .tResume g => some s!"tr{g}"
+  | .exc e => some ("!" ++ e.name)
+  | _ => none
 
 def showInb (s : Inb) : String :=
-  let scs := sorted (s.subs.map (·.1))
+  let scs := (sorted (s.subs.map (·.1))).filter (fun n => (s.scState n).1 != Gen.SubChannel.init)
   let sub := ",".intercalate (scs.map fun n => s!"{n}:{Gen.SubChannel.State.name (s.scState n).1}")
-  s!"paused={showList (sorted s.pausedSc)} open={showList (sorted s.openSc)} conn={match s.conn with | some g => toString g | none => "-"} sub={sub}"
+  s!"paused={showList (sorted s.pausedSc)} open={showList (sorted s.openSc)} conn={match s.conn with | some g => toString g | none => "-"} sub={sub} parked={showList s.parked} pend={",".intercalate ((sorted (s.pend.map (·.1))).filterMap fun n => if (s.pendOf n).1 == 0 && !(s.pendOf n).2 then none else some s!"{n}:{(s.pendOf n).1}{if (s.pendOf n).2 then "c" else ""}")}"
 
 structure DrvSt where
   c : Cfg := {}
@@ -768,6 +856,9 @@ def readIOp? : List String → Option IOp
   | ["rc", sc] => sc.toNat?.map .rclose
   | ["l", sc] => sc.toNat?.map .lose
   | ["lw", sc] => sc.toNat?.map .loseW
+  | ["ro", sc] => sc.toNat?.map .ropen
+  | ["rd", sc, _kib] => sc.toNat?.map .rdata
+  | ["li", m] => m.toNat?.map .listen
   | _ => none
 
 def drvStep (s : DrvSt) (line : String) : DrvSt × String :=
@@ -787,7 +878,7 @@ def drvStep (s : DrvSt) (line : String) : DrvSt × String :=
       match readIOp? rest with
       | some op =>
         let i' := istep s.i op
-        let evs := ((i'.log.take (i'.log.length - s.i.log.length)).reverse).map showIEv
+        let evs := ((i'.log.take (i'.log.length - s.i.log.length)).reverse).filterMap showIEv
         ({ s with i := i' }, orDash (",".intercalate evs) ++ " | " ++ showInb i')
       | none => (s, "bad-op")
     | _ => (s, "bad-op")
